@@ -39,7 +39,9 @@ def accounting(case, asg, infinity=10000):
 
 def gen_run(rng):
     palettes = ("ties", "distinct", "float", "neg", "hard")
-    case = gen.gen_case(rng, min_vars=1, max_vars=6, max_dom=3, palettes=palettes, max_space=800, initial=rng.random() < 0.5)
+    # half of the instances have 5-7 variables: pseudo-trees with inner nodes having several children and pseudo-parents
+    nvars = None if rng.random() < 0.5 else rng.randint(5, 7)
+    case = gen.gen_case(rng, nvars=nvars, min_vars=1, max_vars=6, max_dom=3, palettes=palettes, max_space=2500, initial=rng.random() < 0.5)
     if case["palette"] == "hard":
         case["objective"] = "min"
         if rng.random() < 0.5:
